@@ -253,7 +253,22 @@ def run(ctx):
     tg = Counter(unparse(n.targets[0]) for n in walk_no_nested(fn) if isinstance(n, ast.Assign) and isinstance(n.targets[0], ast.Name)
                  and isinstance(n.value, ast.Call) and "_validate_value_" in unparse(n.value.func))
     errv = tg.most_common(1)[0][0] if tg else "err"
-    err_raise = [n for n in g.nodes if n.kind == "stmt" and isinstance(n.ast, ast.Raise) and any(tv and a == errv for t, lab in g.guards(n.id, exc=False) for a, tv in facts(t, lab == "true"))]
+    def verdict_family(f):
+        """the verdict local and the locals it is handed on to (plain copies, results of the special-case hook applied to it)"""
+        fam = {errv}
+        changed_ = True
+        while changed_:
+            changed_ = False
+            for a_ in walk_no_nested(f):
+                if isinstance(a_, ast.Assign) and len(a_.targets) == 1 and isinstance(a_.targets[0], ast.Name) and a_.targets[0].id not in fam:
+                    v_ = a_.value
+                    if (isinstance(v_, ast.Name) and v_.id in fam) or (isinstance(v_, ast.Call) and unparse(v_.func).endswith("_validate_special_cases")
+                                                                         and any(isinstance(x_, ast.Name) and x_.id in fam for x_ in v_.args)):
+                        fam.add(a_.targets[0].id)
+                        changed_ = True
+        return fam
+    fam0 = verdict_family(fn)
+    err_raise = [n for n in g.nodes if n.kind == "stmt" and isinstance(n.ast, ast.Raise) and any(tv and a in fam0 for t, lab in g.guards(n.id, exc=False) for a, tv in facts(t, lab == "true"))]
     ctx.instance(R5, "validate_value[error string => FIXMessageError]", len(err_raise) == 1, "a helper's error string is not turned into a FIXMessageError at exactly one site", loc(fn))
     asserts = [n for n in walk_no_nested(fn) if isinstance(n, ast.Assert)]
     ctx.instance(R5, "validate_value[no assert on the value]", not asserts, "validate_value asserts on the value: message data raises AssertionError", loc(asserts[0]) if asserts else loc(fn))
@@ -275,22 +290,25 @@ def run(ctx):
     hook = repo.functions.get("SchemaField._validate_special_cases")
     vfn, _rep = inlined_copy(fn, {"_validate_special_cases": hook}, "SchemaField")
     vg = CFG(vfn)
+    fam6 = verdict_family(vfn)
     valp = fn.args.args[1].arg
     special, unknown = [], []
     for n in vg.nodes:
         if n.kind != "stmt" or not isinstance(n.ast, (ast.Assign, ast.AugAssign, ast.AnnAssign)):
             continue
         tgt = n.ast.targets[0] if isinstance(n.ast, ast.Assign) else n.ast.target
-        if unparse(tgt) != errv:
+        if unparse(tgt) not in fam6:
             continue
         v = n.ast.value
+        if isinstance(v, ast.Name) and v.id in fam6:
+            continue  # the verdict handed on unchanged
         if isinstance(v, ast.Call) and "_validate_value_" in unparse(v.func):
             continue  # datatype dispatch
         fs = set()
         for t, lab in vg.guards(n.id, exc=False):
             fs |= facts(t, lab == "true")
         in_dispatch = any(tv and re.fullmatch(r"\w+ (==|in) .+", a) and not a.startswith(("self.tag", valp + " ")) for a, tv in fs)
-        before_dispatch = any(m.kind == "stmt" and isinstance(m.ast, ast.Assign) and unparse(m.ast.targets[0]) == errv and isinstance(m.ast.value, ast.Call)
+        before_dispatch = any(m.kind == "stmt" and isinstance(m.ast, ast.Assign) and unparse(m.ast.targets[0]) in fam6 and isinstance(m.ast.value, ast.Call)
                               and "_validate_value_" in unparse(m.ast.value.func) and vg.reaches(n.id, m.id, exc=False) for m in vg.nodes)
         if isinstance(v, ast.Constant) and v.value is None and (in_dispatch or before_dispatch):
             continue  # datatype with nothing to check / the initial value in front of the dispatch
@@ -305,7 +323,7 @@ def run(ctx):
     ctx.instance(R6, "_validate_special_cases[only clears, only tag 16 value '0']", ok,
                  "the special case does more than clearing the error for EndSeqNo(16)='0': it widens (or narrows) another field's language", loc(hook or fn))
     # ... and it is applied after the dispatch: the clearing write is not followed by another dispatch write
-    order_ok = bool(special) and all(not any(isinstance(m.ast, ast.Assign) and unparse(m.ast.targets[0]) == errv and isinstance(m.ast.value, ast.Call)
+    order_ok = bool(special) and all(not any(isinstance(m.ast, ast.Assign) and unparse(m.ast.targets[0]) in fam6 and isinstance(m.ast.value, ast.Call)
                                              and vg.reaches(n.id, m.id, exc=False) for m in vg.nodes if m.kind == "stmt" and m.id != n.id) for n, _ in special)
     raise_after = bool(special) and all(any(vg.reaches(n.id, r.id, exc=False) for r in vg.nodes if r.kind == "stmt" and isinstance(r.ast, ast.Raise)) for n, _ in special)
     ctx.instance(R6, "validate_value[special case applied to the helper verdict]", order_ok and raise_after and not unknown,
@@ -407,7 +425,20 @@ def protects(g, guard, accepts):
     """Is every accepting return dominated by the edge on which the guard call matched?"""
     tn = [n for n in g.nodes if n.kind == "test" and any(x is guard.call for x in ast.walk(n.ast))]
     if not tn:
-        return False
+        # the match object is first put into a local (`m = re.fullmatch(...)`; `if m:` / `if not m:` / `if m is None:`)
+        holders = [n for n in g.nodes if n.kind == "stmt" and isinstance(n.ast, ast.Assign) and n.ast.value is guard.call
+                   and len(n.ast.targets) == 1 and isinstance(n.ast.targets[0], ast.Name)]
+        if len(holders) != 1:
+            return False
+        m = holders[0].ast.targets[0].id
+        if sum(1 for n in g.nodes if n.kind == "stmt" and isinstance(n.ast, (ast.Assign, ast.AugAssign)) and m in
+               [unparse(t) for t in (n.ast.targets if isinstance(n.ast, ast.Assign) else [n.ast.target])]) != 1:
+            return False
+        tm = [n for n in g.nodes if n.kind == "test" and any(isinstance(x, ast.Name) and x.id == m for x in ast.walk(n.ast)) and g.reaches(holders[0].id, n.id, exc=False)]
+        if not tm:
+            return False
+        passing = {lab for lab in ("true", "false") if (m, True) in facts(tm[0].ast, lab == "true") or (f"{m} is not None", True) in facts(tm[0].ast, lab == "true")}
+        return bool(passing) and all(any(g.dominated_by(a.id, tm[0].id, lab, exc=False) for lab in passing) for a in accepts)
     passing = {lab for lab in ("true", "false") if (unparse(guard.call), True) in facts(tn[0].ast, lab == "true")}
     return bool(passing) and all(any(g.dominated_by(a.id, tn[0].id, lab, exc=False) for lab in passing) for a in accepts)
 
@@ -516,33 +547,73 @@ def datetime_guards(ctx, rule, repo):
 
 
 def monthyear(ctx, rule, repo, dt_guards):
+    """Path-wise: every accepting path of the MonthYear helper ends in the datetime helper, called on the whole value with a
+    constant YYYYMM / YYYYMMDD layout, or on the value without its last two characters - and then those two characters were
+    tested to be one of w1..w5 and the remainder to be six characters long, with the YYYYMM layout."""
+    from sa.guards import _detach
     fn = repo.func(MY)
-    # formats handed on to the datetime helper
-    fmts = set()
+    g = CFG(fn)
     vparam = fn.args.args[0].arg
-    fmt_local = next((unparse(c.args[1]) for c in walk_no_nested(fn) if isinstance(c, ast.Call) and unparse(c.func).endswith("_validate_value_datetime") and len(c.args) == 2
-                      and isinstance(c.args[1], ast.Name)), "format")
-    for n in walk_no_nested(fn):
-        if isinstance(n, ast.Assign) and unparse(n.targets[0]) == fmt_local and isinstance(n.value, ast.Constant):
-            fmts.add(n.value.value)
-    rets = [n for n in walk_no_nested(fn) if isinstance(n, ast.Return)]
-    final = [n for n in rets if isinstance(n.value, ast.Call) and unparse(n.value.func).endswith("_validate_value_datetime")]
-    ok_shape = len(final) == 1 and [unparse(a) for a in final[0].value.args] == [vparam, fmt_local] and \
-        all(isinstance(n.value, (ast.Constant, ast.JoinedStr)) or n is final[0] for n in rets)
+    rets = [n for n in g.nodes if n.kind == "stmt" and isinstance(n.ast, ast.Return)]
+    fmts = set()
+    ok_shape, ok_week = bool(rets), True
+    n_week = 0
+    why = ""
+    for r in rets:
+        for path in g.paths(g.entry, [r.id], exc=False, limit=2000):
+            env = {}
+            decisions = []
+
+            def sub(e):
+                class S(ast.NodeTransformer):
+                    def visit_Name(self, node):
+                        if isinstance(node.ctx, ast.Load) and node.id in env:
+                            return _detach(env[node.id])
+                        return node
+                return S().visit(_detach(e))
+            for a, b in zip(path, path[1:]):
+                nd = g.nodes[a]
+                if nd.kind == "stmt" and isinstance(nd.ast, ast.Assign) and len(nd.ast.targets) == 1 and isinstance(nd.ast.targets[0], ast.Name):
+                    env[nd.ast.targets[0].id] = sub(nd.ast.value)
+                elif nd.kind == "test":
+                    lab = next((lb for d, lb in g.succs(a, exc=False) if d == b), None)
+                    for atom, tv in facts(sub(nd.ast), lab == "true"):
+                        decisions.append((atom, tv))
+            v = r.ast.value
+            if v is None or isinstance(v, (ast.Constant, ast.JoinedStr)) and not (isinstance(v, ast.Constant) and v.value is None):
+                continue  # an error string: a rejecting path
+            v = sub(v)
+            if not (isinstance(v, ast.Call) and unparse(v.func).endswith("_validate_value_datetime") and len(v.args) == 2 and isinstance(v.args[1], ast.Constant)):
+                ok_shape = False
+                why = f"a path returns `{short(r.ast.value)}`"
+                continue
+            subject, fmt = unparse(v.args[0]), v.args[1].value
+            fmts.add(fmt)
+            if subject == vparam:
+                if fmt not in ("%Y%m", "%Y%m%d"):
+                    ok_shape = False
+                    why = f"layout {fmt!r}"
+            elif subject == f"{vparam}[:-2]":
+                n_week += 1
+                wk = f"{vparam}[-2:]"
+                weeks_ok = any((tv and re.fullmatch(re.escape(wk) + r" in \{(.*)\}", a) and set(re.findall(r"'(\w+)'", a)) == {"w1", "w2", "w3", "w4", "w5"}) or
+                               (not tv and re.fullmatch(re.escape(wk) + r" not in \{(.*)\}", a) and set(re.findall(r"'(\w+)'", a)) == {"w1", "w2", "w3", "w4", "w5"})
+                               for a, tv in decisions)
+                len_ok = (f"len({subject}) == 6", True) in decisions or (f"len({subject}) != 6", False) in decisions
+                if not (weeks_ok and len_ok and fmt == "%Y%m"):
+                    ok_week = False
+            else:
+                ok_shape = False
+                why = f"the datetime helper is applied to `{subject}`"
     ctx.instance(rule, "MONTHYEAR[every accepting path ends in the datetime helper]", ok_shape,
-                 "a MonthYear value can be accepted without passing the datetime helper (and its lexical guard)", loc(fn))
+                 f"a MonthYear value can be accepted without passing the datetime helper on the value (and its lexical guard): {why}", loc(fn))
     pats = []
     for f in sorted(fmts):
         pats += dt_guards(f)
     check_inclusion(ctx, rule, f"MONTHYEAR[strptime({sorted(fmts)}) guarded]", pats, CATALOGUE["MONTHYEAR"], loc(fn), "strptime decides MonthYear values")
-    # week variant: exactly w1..w5 after six digits
-    src = unparse(fn)
-    weeks = None
-    for n in walk_no_nested(fn):
-        if isinstance(n, ast.Compare) and isinstance(n.ops[0], ast.NotIn) and isinstance(n.comparators[0], ast.Set):
-            weeks = {e.value for e in n.comparators[0].elts if isinstance(e, ast.Constant)}
-    ctx.instance(rule, "MONTHYEAR[week code w1..w5 after YYYYMM]", weeks == {"w1", "w2", "w3", "w4", "w5"} and "len(value) != 6" in src and "value[:-2]" in src and "value[-2:]" in src,
-                 f"the week-code variant accepts {sorted(weeks) if weeks else '?'} / does not pin the YYYYMM remainder to six characters", loc(fn))
+    ctx.instance(rule, "MONTHYEAR[week code w1..w5 after YYYYMM]", ok_week and n_week >= 1,
+                 "the week-code variant does not test the last two characters against exactly w1..w5 / does not pin the YYYYMM remainder to six characters "
+                 "on every accepting path", loc(fn))
 
 
 def string_helper(ctx, rule, repo):
